@@ -770,12 +770,18 @@ func VerifC29Recovered(h *verifrt.H) {
 	r := vfPersist(h, dir, time.Second, nil)
 	vfPut(r, "z", nil)
 	r.Close()
-	files = h.ListFiles(h.TempDir())
-	h.Assert(len(files) == 1, "one-storage-file")
-	if len(files) != 1 {
+	var hyd []string
+	for _, f := range h.ListFiles(h.TempDir()) {
+		if strings.HasSuffix(f, ".hyd") {
+			hyd = append(hyd, f)
+		}
+	}
+	// the explorer lists one swamp per .hyd file: exactly one may exist for the one swamp
+	h.Assert(len(hyd) == 1, "one-storage-file")
+	if len(hyd) != 1 {
 		return
 	}
-	got, err := v2.ReadSwampName(files[0])
+	got, err := v2.ReadSwampName(hyd[0])
 	h.Assert(err == nil && got == "s/r/w", "name-lookup-after-recovery")
 	r2 := vfPersist(h, dir, time.Second, nil)
 	h.Assert(r2.TreasureExists("z"), "write-after-recovery-present")
